@@ -66,6 +66,16 @@ def run_shard(spec, acc):
         for i in range(spec["n"]):
             names = trees.NAMES + (rnd.sample(WEIRD, 3) if rnd.random() < 0.5 else [])
             tspec = trees.random_project(rnd, depth=rnd.choice([2, 3, 4]), imports_per_file=(0, 3), names=names)
+            if rnd.random() < 0.25:
+                # generated artefacts whose NAMES contain what a shell would expand: '$STAGE' / '${STAGE}' / '~' / '%TEMP%'
+                # are ordinary characters of a file name and of a pattern (the variables are set in this process)
+                os.environ.setdefault("STAGE", "prod")
+                os.environ.setdefault("TEMP", "tmpdir")
+                d = rnd.choice(trees.all_dirs(tspec))
+                pre = d + "/" if d else ""
+                for fn in rnd.sample(["settings_$STAGE.py", "settings_prod.py", "${STAGE}/conf.py", "prod/conf.py", "~user.py", "%TEMP%.py", "tmpdir.py", "$HOME.py"], 4):
+                    tspec["files"].setdefault(pre + fn, "import proj\n")
+                acc.count("trees_with_shell_metacharacters_in_file_names")
             one_tree(tspec, acc, rnd, sample=(i % 11 == 0))
             if i % 3 == 0:
                 excluded_unparsable(tspec, acc, rnd)
